@@ -45,7 +45,8 @@ def string_spec(s):
 
 
 AUTO_FORMS = ["file", "dir1", "dir3", "link-file", "dir-with-link",
-              "link-dir", "nested", "file@cli", "dir-with-link@cli"]
+              "link-dir", "nested", "dir-with-linked-subdir", "file@cli",
+              "dir-with-link@cli", "dir-with-linked-subdir@cli"]
 
 
 def _sparse(path, n):
@@ -78,6 +79,10 @@ def auto_payload(parent, form, s):
         _sparse(os.path.join(store, "real"), s - 1)
         _sparse(os.path.join(p, "c"), 1)
         os.symlink(os.path.join(store, "real"), os.path.join(p, "a"))
+    elif form == "dir-with-linked-subdir":
+        _sparse(os.path.join(store, "realdir", "a"), s - 1)
+        _sparse(os.path.join(p, "c"), 1)
+        os.symlink(os.path.join(store, "realdir"), os.path.join(p, "sub"))
     elif form == "link-dir":
         _sparse(os.path.join(store, "realdir", "a"), s)
         os.symlink(os.path.join(store, "realdir"), p)
